@@ -27,7 +27,12 @@ Fixpoint seqb (a b : str) : bool :=
   end.
 
 (* ---- configuration read from the source ---- *)
-Inductive loop_shape := LastWins | FirstWins.
+(* LastWins     : for (rule : m_rules) if (rule matches) enabled = rule->enabled;   return enabled;
+   FirstWins    : the same loop leaving at the first matching rule (break / return);
+   LastFromBack : the list walked from its END, leaving at the first matching rule
+                  (for (it = m_rules.crbegin(); ...) if (matches) return enabled; return <default>;) - another way to
+                  let the last matching rule decide (CategoryProofs.decide_canon) *)
+Inductive loop_shape := LastWins | FirstWins | LastFromBack.
 (* the matcher of Rule::matches, as the translator finds it in the source:
    MWildcardIter : wildcardMatch(pattern, text), the iterative two-pointer glob (indices p, t, position of
                    the most recent wildcard, text position it was last tried at), no regular expression;
@@ -200,6 +205,7 @@ Definition decide (sh : loop_shape) (dflt : bool) (la : matcher_kind) (st : N) (
   match sh with
   | LastWins => fold_left (fun en r => if rule_matches la st r cat t then enabled r else en) rs dflt
   | FirstWins => match find (fun r => rule_matches la st r cat t) rs with Some r => enabled r | None => dflt end
+  | LastFromBack => match find (fun r => rule_matches la st r cat t) (rev rs) with Some r => enabled r | None => dflt end
   end.
 Definition filter_rules (cfg : cat_cfg) (rs : list rule) (cat : str) (t : mtype) : bool :=
   decide (shape cfg) (default_verdict cfg) (matcher cfg) (star cfg) rs cat t.
@@ -242,7 +248,7 @@ Fixpoint list_eqb {A} (eq : A -> A -> bool) (a b : list A) : bool :=
   | _, _ => false
   end.
 Definition shape_eqb (a b : loop_shape) : bool :=
-  match a, b with LastWins, LastWins | FirstWins, FirstWins => true | _, _ => false end.
+  match a, b with LastWins, LastWins | FirstWins, FirstWins | LastFromBack, LastFromBack => true | _, _ => false end.
 Definition matcher_eqb (a b : matcher_kind) : bool :=
   match a, b with MWildcardIter, MWildcardIter | MRegexWhole, MRegexWhole | MRegexLine, MRegexLine => true | _, _ => false end.
 Definition cfg_eqb (a b : cat_cfg) : bool :=
@@ -250,7 +256,16 @@ Definition cfg_eqb (a b : cat_cfg) : bool :=
   && list_eqb (fun x y => seqb (fst x) (fst y) && mtype_eqb (snd x) (snd y)) (suffixes a) (suffixes b)
   && list_eqb (fun x y => seqb (fst x) (fst y) && Bool.eqb (snd x) (snd y)) (values a) (values b)
   && (star a =? star b) && matcher_eqb (matcher a) (matcher b) && Bool.eqb (default_verdict a) (default_verdict b) && shape_eqb (shape a) (shape b).
-Definition cfg_goodb (c : cat_cfg) : bool := cfg_eqb c std_cfg.
+(* the two loops in which the last matching rule decides are one shape for the property: [canon] names the
+   forward loop for both (decide (shape c) = decide (shape (canon c)), CategoryProofs.decide_canon); every other
+   field is kept *)
+Definition canon_shape (sh : loop_shape) : loop_shape :=
+  match sh with LastFromBack => LastWins | LastWins => LastWins | FirstWins => FirstWins end.
+Definition canon (c : cat_cfg) : cat_cfg :=
+  {| sep_from := sep_from c; sep_to := sep_to c; split_ch := split_ch c; suffixes := suffixes c;
+     values := values c; star := star c; matcher := matcher c; default_verdict := default_verdict c;
+     shape := canon_shape (shape c) |}.
+Definition cfg_goodb (c : cat_cfg) : bool := cfg_eqb (canon c) std_cfg.
 (* the pre-repair matching semantics with otherwise the same constants (used by the check only to
    classify a failing input as the LF defect) *)
 Definition with_line_anchors (c : cat_cfg) : cat_cfg :=
